@@ -616,6 +616,19 @@ def _add_exception_namesakes(rng, pkg: Pkg) -> None:
         namesake = Cls(c.name, bases=["Exception"], methods=[Fn("explain", [], "str", role="inst")], is_exception=True)
         derived = Cls(f"{c.name}Failure", bases=[c.name], is_exception=True)
         pkg.modules.append(Mod(m.pkg, modname, decls=[namesake, derived]))
+    # ... and enums that carry the name of an ordinary class of another module (analysed before / after it) or of a class nested
+    # in a class of another module
+    if cfg_enums := any(isinstance(d, En) for m in pkg.modules for d in m.decls):
+        for k, (m, c) in enumerate(tops[2:4]):
+            if any(is_private_name(seg) for seg in m.pkg):
+                continue
+            modname = f"{'aa' if k == 0 else 'zz'}_kinds{k}"
+            if any(x.pkg == m.pkg and x.name == modname for x in pkg.modules):
+                continue
+            decls = [En(c.name, [f"KIND_A{k}", f"KIND_B{k}"])]
+            if c.nested and not is_private_name(c.nested[0].name) and isinstance(c.nested[0], Cls):
+                decls.append(En(c.nested[0].name, [f"INNER_A{k}"]))
+            pkg.modules.append(Mod(m.pkg, modname, decls=decls))
 
 
 def _add_private_bases(rng, names, pkg: Pkg) -> None:
